@@ -29,9 +29,14 @@ TRUSTED_BASE = [
 SRC_TRUSTED = [
     "source tie: tools/py2coq.py (fail-closed Python-ast to Gallina translator; its reading of evaluation order, "
     "short-circuiting, truth values, comprehensions, mutation of function-local lists / dicts as assignment, "
-    "`X is not None` as a binding match) and coq/Model/PyRt.v (a Feature object = the tree value with its chain of "
-    "ancestors; built-ins); the type annotations of /repo are trusted; flamapy.core (Node / AST methods, simplify_formula, "
-    "propagate_negation, to_cnf) stays the hand model of Model/Ast.v",
+    "`X is not None` as a binding match; operation / writer / reader classes as state records; the store of shared set "
+    "objects; readers in builder mode — Feature / Relation objects as tree values, mutation of an object that has not been "
+    "stored, passed on or returned as a rebinding, rejected otherwise; field assignment on a Node created in the same function "
+    "and not read since; an ElementTree Element as the tree value of Format/Xml.v; the reflection over @metric_method as the "
+    "list of decorated names in dir() order) and coq/Model/PyRt.v (a Feature object = the tree value with its chain of "
+    "ancestors; built-ins, statistics.mean / median, round, Metrics.construct_result / get_ratio of flamapy.core); the type "
+    "annotations of /repo are trusted; flamapy.core (Node / AST methods, simplify_formula, propagate_negation, to_cnf) stays "
+    "the hand model of Model/Ast.v; json.load / ElementTree.parse deliver the document value the translated reader starts from",
 ]
 
 PROPS = {
